@@ -196,7 +196,11 @@ class G:
         body = ["var y = x + 1;"]
         opts = ["var (p, q) = (1, 2);", "var z = U()(x);", "var p; var q; (p, q) = (1, 2);", "1 + 2 = 3;", "g(x);", "assert((x, x));", "log((x, x));",
                 "if ((x, x)) { }", "var w[(1, 2)];", "var w[2]; w[(0, 1)] = 1;", "if (x) { g(x) = 2; } else { y = 2; }", "while (x) { x + 1 = 2; }",
-                "y = g((1, 2));", "y = x ? U()(x) : 1;", "assert(U()(x));", "log(V()(x, x));", "var w[2]; w[U()(x)] = 1;", "y = g(x);", "y += 2;"]
+                "y = g((1, 2));", "y = x ? U()(x) : 1;", "assert(U()(x));", "log(V()(x, x));", "var w[2]; w[U()(x)] = 1;", "y = g(x);", "y += 2;",
+                # in the condition of a loop, in the parts of a `for`, in an `else if` (a mechanical mutant of the walk over `while` survived)
+                "while ((x, x)) { y = 1; }", "while (U()(x)) { y = 1; }", "for (var i = 0; i < (1, 2); i++) { y = 1; }", "for (var i = U()(x); i < 2; i++) { y = 1; }",
+                "for (var i = 0; i < 2; i += (1, 2)) { y = 1; }", "if (U()(x)) { y = 1; }", "if (x) { y = 1; } else if ((x, x)) { y = 2; }",
+                "while (x) { if ((x, x)) { y = 1; } x = 0; }", "y = -(x, x);", "y = (x, x) + 1;", "y = x ? (1, 2) : 1;", "y = (x, x) ? 1 : 2;", "var w[2] = [(1, 2), 3];"]
         for _ in range(rng.below(3)):
             st = rng.choice(opts)
             w = rng.below(8)
